@@ -36,6 +36,16 @@ class Transformer(ast.NodeTransformer):
                                               args=[node.value, node.slice], keywords=[]), node)
         return node
 
+    # d[k] = v  (single target, plain subscript)  ->  __sx_setitem__(v, d, k)   (evaluation order value, object, key as in python)
+    def visit_Assign(self, node):
+        self.generic_visit(node)
+        if len(node.targets) == 1 and isinstance(node.targets[0], ast.Subscript):
+            t = node.targets[0]
+            if not isinstance(t.slice, ast.Slice) and not (isinstance(t.slice, ast.Tuple) and any(isinstance(e, ast.Slice) for e in t.slice.elts)):
+                call = ast.Call(func=ast.Name(id='__sx_setitem__', ctx=ast.Load()), args=[node.value, t.value, t.slice], keywords=[])
+                return ast.copy_location(ast.Expr(value=call), node)
+        return node
+
     # x in c / x not in c  ->  __sx_contains__(c, x)
     def visit_Compare(self, node):
         self.generic_visit(node)
